@@ -190,6 +190,14 @@ def configs(tier):
         for method in METHODS:
             out.append({'routine': 'eval_fixed', 'n_rdm': nr, 'n_cond': nc, 'method': method,
                         'models': ['fixed', 'weighted', 'select', 'interpolate']})
+    # (the parameters in the other documented containers: tuple, one array row per model)
+    for form in ('tuple', 'array2d'):
+        out.append({'routine': 'eval_fixed', 'n_rdm': 3, 'n_cond': 4, 'method': 'cosine',
+                    'models': ['weighted', 'interpolate'], 'theta_form': form})
+        for routine in ('eval_bootstrap', 'eval_bootstrap_rdm', 'eval_bootstrap_pattern'):
+            out.append({'routine': routine, 'n_rdm': 3, 'n_cond': 4, 'method': 'cosine', 'rdm_desc': 'index',
+                        'pat_desc': 'index', 'N': 2, 'boot_noise_ceil': True, 'models': ['weighted', 'interpolate'],
+                        'theta_form': form})
     # B plain bootstraps
     for routine in ('eval_bootstrap', 'eval_bootstrap_rdm', 'eval_bootstrap_pattern'):
         for (nr, nc) in sizes:
@@ -339,6 +347,10 @@ def execute(cfg, env, seed):
     fitter = RecFitter()
     fit_list = [fitter if s['kind'] == 'fitted' else None for s in spec]
     theta = [s['theta'] for s in spec]
+    if cfg.get('theta_form') == 'tuple':
+        theta = tuple(theta)
+    elif cfg.get('theta_form') == 'array2d':
+        theta = np.array([np.asarray(t, dtype=float) for t in theta])
     pin = None
     if r in ('eval_bootstrap', 'eval_bootstrap_rdm', 'eval_bootstrap_pattern') and not cfg.get('menu3'):
         pin = _pin_after_first(2 if r == 'eval_bootstrap' else 1)
